@@ -113,6 +113,18 @@ func runReg(c Case, res *lib.Result) (ret string) {
 		if !isSession {
 			return nil
 		}
+		// a registry that refuses every chunk with a status the client cannot recover from (400 / 500) while its session
+		// status request keeps answering 204 with an unchanged Range: the upload must give up, not repeat itself for ever
+		if (c.Kind == "looprefuse400" || c.Kind == "looprefuse500") && req.Method == "PATCH" {
+			plog = append(plog, [2]int64{0, int64(len(body))})
+			if len(plog) == 1 || len(plog) > 2000 {
+				return nil // the first chunk is stored (the session then reports a Range); let it through at the end so that the run ends
+			}
+			if c.Kind == "looprefuse400" {
+				return memrt.Resp(400, nil, []byte(`{"errors":[{"code":"BLOB_UPLOAD_INVALID"}]}`))
+			}
+			return memrt.Resp(500, nil, nil)
+		}
 		if c.Kind == "loop416" && req.Method == "PATCH" {
 			plog = append(plog, [2]int64{0, int64(len(body))})
 			if len(plog) > 2000 {
@@ -219,6 +231,16 @@ func runReg(c Case, res *lib.Result) (ret string) {
 	c.Script = origScript
 	if ctx.Err() != nil {
 		res.Fail("upload-did-not-terminate kind="+c.Kind, fmt.Sprintf("BlobPut still running after 8s (%d PATCH requests)", len(plog)), c)
+		return ""
+	}
+	if c.Kind == "looprefuse400" || c.Kind == "looprefuse500" {
+		res.Count(c.Kind)
+		if len(plog) > 200 {
+			res.Fail("upload-repeats-without-progress kind="+c.Kind, fmt.Sprintf("a registry refusing every chunk (status probe 204, Range unchanged) received %d PATCH requests before the upload gave up", len(plog)), c)
+		}
+		if err == nil && len(plog) <= 2000 {
+			res.Fail("committed-bytes-differ kind="+c.Kind, "upload reported success although the registry refused every chunk", c)
+		}
 		return ""
 	}
 	if c.Kind == "loop416" {
@@ -472,6 +494,8 @@ func Run(o lib.Opts) {
 	all = append(all, Case{Kind: "fallback", Cap: 4, Stream: bytes.Repeat([]byte("abcdefgh"), 4), Declared: "right", Keep: 13, Seekable: true, Alg: "sha256"})
 	all = append(all, Case{Kind: "fallback", Cap: 4, Stream: bytes.Repeat([]byte("abcdefgh"), 4), Declared: "right", Keep: 8, Seekable: true, Alg: "sha256"})
 	all = append(all, Case{Kind: "loop416", Cap: 4, Stream: []byte("0123456789abcdef"), Declared: "none", Seekable: true, Alg: "sha256"})
+	all = append(all, Case{Kind: "looprefuse400", Cap: 4, Stream: []byte("0123456789abcdef"), Declared: "none", Seekable: true, Alg: "sha256"},
+		Case{Kind: "looprefuse500", Cap: 5, Stream: []byte("0123456789abcdefgh"), Declared: "right", Seekable: false, Alg: "sha256"})
 	n := o.Scale(700, 25000)
 	for i := 0; i < n; i++ {
 		all = append(all, genCase(r))
